@@ -123,6 +123,9 @@ func (w *World) userBody(ui int) {
 		case "register", "enroll":
 			w.userRegister(ui, op)
 			continue
+		case "cdial", "cenroll":
+			w.userClientDial(ui, op)
+			continue
 		case "stop":
 			if !w.booted {
 				vsched.Block("user:wait-boot", func() bool { return w.booted || w.runDone })
@@ -143,6 +146,9 @@ func (w *World) userBody(ui int) {
 		}
 		c := cs.c
 		seq++
+		if cs.udp && op.K != "wake" && op.K != "execute" {
+			continue
+		}
 		switch op.K {
 		case "asyncwrite":
 			id := w.newOpID()
